@@ -1,6 +1,6 @@
 """framework.py — shared machinery of the property checks: setup (Coq build,
 extraction, driver), harness/driver execution, violation reporting, evidence."""
-import json, os, random, re, shutil, sys, time
+import json, os, random, re, shutil, subprocess, sys, time
 sys.path.insert(0, os.path.dirname(os.path.abspath(__file__)))
 from common import *
 import nopgen, sx, build_harness
@@ -134,7 +134,7 @@ def chunked(lines, n):
     return [lines[i:i + k] for i in range(0, len(lines), k)]
 
 
-def run_parallel(cmd, lines, env=None, what='tool'):
+def run_parallel(cmd, lines, env=None, what='tool', chunk_timeout=600):
     """feeds the case lines to NCPU copies of cmd; returns output lines, in order.
     A crashed worker (sanitizer report, abort) yields 'CRASH <stderr tail>' for the
     case it died on and the run continues after it."""
@@ -147,8 +147,14 @@ def run_parallel(cmd, lines, env=None, what='tool'):
         out = []
         i = 0
         while i < len(part):
-            r = run(cmd, input='\n'.join(part[i:]) + '\n', env=env, timeout=3600)
-            got = r.stdout.splitlines()
+            try:
+                r = run(cmd, input='\n'.join(part[i:]) + '\n', env=env, timeout=chunk_timeout)
+                got = r.stdout.splitlines()
+            except subprocess.TimeoutExpired as te:
+                so = te.stdout or b''
+                got = (so.decode() if isinstance(so, bytes) else so).splitlines()
+                class R: pass
+                r = R(); r.returncode = -9; r.stderr = 'TIMEOUT after %ds' % chunk_timeout
             if r.returncode == 0 and len(got) == len(part) - i:
                 out += got
                 break
